@@ -1,11 +1,12 @@
 #!/bin/sh
-# Builds the framework from files on disk only (offline): the Lean library (model, lemmas, theorems),
-# the model driver and the Go harness.
+# Builds the framework from files on disk only (offline): the Go harness, the facts regenerated from /repo,
+# the Lean library (model, lemmas, theorems) and the model driver.
 set -e
 cd "$(dirname "$0")"
 export GOFLAGS=-mod=mod GOPROXY=off GOSUMDB=off GOTOOLCHAIN=local
 mkdir -p .work evidence replays
-(cd lean && lake build TssVerif tssdrv)
 cp /repo/go.sum harness/go.sum
 (cd harness && go build -tags verif -o ../.work/vh .)
+./.work/vh facts -gen lean/TssVerif/Gen
+(cd lean && lake build TssVerif tssdrv)
 echo setup done
